@@ -225,12 +225,12 @@ func c06Frames() []CFrame {
 	// more than a megabyte (remaining length in its four-byte form... three here) followed by other frames
 	pm := &spec.Packet{Type: 3, Topic: []byte("huge"), Payload: gen.Content('L', 1_300_000)}
 	frames = append(frames, CFrame{Name: "publish.1.3MB", B: mustEncode(pm, spec.Form{}), Valid: true, Type: 3})
-	return frames
+	return append(frames, minedBigFrames()...)
 }
 
 // c06Costly: frames that are only combined with the sub-alphabet (and never
 // with each other), to keep the stream sizes in hand.
-func c06Costly(f CFrame) bool { return len(f.B) > 60000 }
+func c06Costly(f CFrame) bool { return len(f.B) > 60000 || strings.HasPrefix(f.Name, "publish.payload=") || strings.HasPrefix(f.Name, "publish.remlen=") }
 
 func runC06(x *core.Ctx) {
 	frames := c06Frames()
